@@ -15,7 +15,8 @@ ColDefs == <<
   [id |-> 31, name |-> "id", type |-> "int"] >>
 IdxDefs == <<
   [id |-> 101, subj |-> <<11>>, sig |-> ""], [id |-> 102, subj |-> <<11>>, sig |-> ""],
-  [id |-> 103, subj |-> <<31>>, sig |-> "f"], [id |-> 104, subj |-> <<12, 0>>, sig |-> "x"] >>
+  [id |-> 103, subj |-> <<31>>, sig |-> "f"], [id |-> 104, subj |-> <<12, 0>>, sig |-> "x"],
+  [id |-> 105, subj |-> <<0, 31>>, sig |-> "y"] >>
 RefDefs == <<>>
 EnumDefs == <<>>
 GroupDefs == <<>>
